@@ -91,6 +91,11 @@ func (e *Env) queryVariants(method string) []Req {
 		mk("read", db, "SELECT count(v) FROM probe", "read:"+db)
 		mk("read_qualified_other_default", o, fmt.Sprintf("SELECT v FROM %s.autogen.probe LIMIT 2", db), "read:"+db)
 		mk("read_subquery", db, fmt.Sprintf("SELECT max(v) FROM (SELECT v FROM %s.autogen.probe)", db), "read:"+db)
+		// statements reading TWO databases: every operand's database needs READ, whichever side it stands on
+		mk("read_union_other_right", db, fmt.Sprintf("SELECT v FROM %s.autogen.probe UNION ALL SELECT v FROM %s.autogen.probe", db, o), "reads:"+db+":"+o)
+		mk("read_union_other_left", db, fmt.Sprintf("SELECT v FROM %s.autogen.probe UNION ALL SELECT v FROM %s.autogen.probe", o, db), "reads:"+db+":"+o)
+		mk("read_subquery_other", db, fmt.Sprintf("SELECT max(v) FROM (SELECT v FROM %s.autogen.probe)", o), "read:"+o)
+		mk("read_two_sources", db, fmt.Sprintf("SELECT v FROM %s.autogen.probe, %s.autogen.probe LIMIT 4", db, o), "reads:"+db+":"+o)
 		r := mk("read_chunked", db, "SELECT v FROM probe", "read:"+db)
 		r.Query["chunked"], r.Query["chunk_size"] = "true", "1"
 		// show
